@@ -590,6 +590,16 @@ def replay(rp):
         r = multi([(rp["doc"], ['with_dtf("%s"; sort)' % rp["layout"]])])[0][0]
         k, v = res_json(r)
         return k == "ok" and v == rp["want"]
+    if kind == "jsonedge":
+        def jn(lit):
+            if re.fullmatch(r"-?\d+", lit) and -(2 ** 63) <= int(lit) <= 2 ** 63 - 1:
+                return sc(lit, "!!int", lit, "int", str(int(lit)))
+            return sc(lit, "!!float", lit, "float", "%d/%d" % Fraction(float(lit)).as_integer_ratio())
+        l = [jn(x) for x in rp["lits"]]
+        r = vlib.yqh_batch([{"op": "multi", "input": rp["doc"], "in": "json", "exprs": sort_case_exprs(False)}])[0]
+        rs = (r or {}).get("results") or [None, None]
+        v, _, _ = judge_sort([{"k": x} for x in l], False, rs[0], rs[1])
+        return v != "violation"
     if kind == "ts":
         inst = [datetime.datetime.fromisoformat(x) for x in rp["instants"]]
         rs = multi([(rp["doc"], ["[.[0].t < .[1].t, .[0].t <= .[1].t, .[0].t > .[1].t, .[0].t >= .[1].t]", "sort_by(.t) | map(.i)"])])[0]
@@ -1042,6 +1052,46 @@ def run(chk):
             if k3 != "ok" or spell.get(v3) != f(t for _, t in l):
                 viol(dict(rp, what="minmax"), "timestamps %s: %s gives %r, their instants say %s" % (d, TEX[ei], v3, f(t for _, t in l).isoformat()))
     mark("timestamps")
+
+    # ---------------- JSON input: whole-valued numbers at and beyond the int64 edges (oracle only) ----------------
+    # an integer literal inside int64 is exact, every other JSON number is the binary64 it denotes
+    JLITS = ["18446744073709551615", "1e19", "9223372036854775808", "9223372036854775807", "9223372036854775806", "-9223372036854775808",
+             "-9223372036854775809", "1e308", "-1e300", "1000.0", "1e3", "1024", "5", "-3", "2.5", "0", "1.8446744073709552e19",
+             "4611686018427387904", "1e18", "123456789012345678901234567890", "-1e19", "9007199254740992"]
+
+    def jnum(lit):
+        if re.fullmatch(r"-?\d+", lit) and -(2 ** 63) <= int(lit) <= 2 ** 63 - 1:
+            return sc(lit, "!!int", lit, "int", str(int(lit)))
+        return sc(lit, "!!float", lit, "float", "%d/%d" % Fraction(float(lit)).as_integer_ratio())
+    jlists = [[jnum(JLITS[a]), jnum(JLITS[b])] for a in range(len(JLITS)) for b in range(len(JLITS)) if a != b]
+    for _ in range(400 if thorough else 60):
+        jlists.append([jnum(rng.choice(JLITS)) for _ in range(rng.randrange(3, 8))])
+    jdocs = ["[" + ",".join('{"k":%s,"i":%d}' % (d["sp"], i) for i, d in enumerate(l)) + "]" for l in jlists]
+    JEX = sort_case_exprs(False) + ["map(.k) | max", "map(.k) | min", "[.[0].k < .[1].k, .[0].k <= .[1].k, .[0].k > .[1].k, .[0].k >= .[1].k]"]
+    jres = vlib.yqh_parallel([{"op": "multi", "input": d, "in": "json", "exprs": JEX, "deadline_ms": 60000} for d in jdocs])
+    stats["json_edge_cases"] = len(jlists)
+    for l, d, r in zip(jlists, jdocs, jres):
+        rs = (r or {}).get("results") or [None] * len(JEX)
+        chk.count(("jsonedge", d), nontrivial=True)
+        elems = [{"k": x} for x in l]
+        verdict, classes, detail = judge_sort(elems, False, rs[0], rs[1])
+        rp = {"kind": "jsonedge", "doc": d, "lits": [x["sp"] for x in l], "detail": detail}
+        if verdict == "violation":
+            viol(rp, "-p=json %s: %s" % (d, detail))
+        elif verdict == "known":
+            known_or_viol(classes, rp, detail)
+        if classes:
+            continue
+        vals = [numval(x) for x in l]
+        for ei, f in ((2, max), (3, min)):
+            k, v = res_json(rs[ei])
+            if k != "ok" or not isinstance(v, (int, float)) or Fraction(float(v)) != Fraction(float(f(vals))):
+                viol(rp, "-p=json %s: %s gives %r, the values say %s" % (d, JEX[ei], v, float(f(vals))))
+        a, b = vals[0], vals[1]
+        k, v = res_json(rs[4])
+        if k != "ok" or v != [a < b, a <= b, a > b, a >= b]:
+            viol(rp, "-p=json %s: [<, <=, >, >=] of the first two gives %r, the values say %r" % (d, v, [a < b, a <= b, a > b, a >= b]))
+    mark("json_edges")
     chk.extra["phase_s"] = phase
     # ---------------- verdict ----------------
     if stats["tag_mismatch_skipped"] > 0.02 * max(1, len(cases)):
@@ -1065,7 +1115,8 @@ def run(chk):
              "sort_keys(..) on nested maps; min / max / sort / unique / group_by / sort_by applied to several sequences in one context (`.[] | OP`) and under "
              "eval-all, each compared with the same operator on every sequence alone; with_dtf(LAYOUT; sort) for three date layouts on every ordered pair "
              "of a pool (null, bools, numbers, dates, other strings) and on samples, against the order computed here (oracle only, not modelled); "
-             "!!timestamp scalars denoting equal and different instants in several offsets / spellings: < <= > >=, sort_by, min, max against the instants. "
+             "!!timestamp scalars denoting equal and different instants in several offsets / spellings: < <= > >=, sort_by, min, max against the instants; "
+             "JSON input (-p=json) with whole-valued numbers at and beyond the int64 edges (2^63, 2^64-1, 1e19, -2^63-1, 1e308 ...): sort_by, min, max, < <= > >= against the values. "
              "A case is non-trivial when it has at least two elements; distinct by input text." % len(P),
         trusted=vlib.COMMON_TRUSTED + [
             "Spec/Order.v (hand-written total preorder; numbers placed before strings by choice, never used to judge a mixed sequence)",
